@@ -23,7 +23,7 @@ class KGen:
                  malformed: float = 0.06, wrong_state: float = 0.08, max_ctx: int = 8, max_tasks: int = 3,
                  td_depth: int = 2, gated: float = 0.35, exc_end: float = 0.4, many_callbacks: bool = False,
                  p_cancel: float = 0.0, p_pair: float = 0.25, p_manual: float = 0.0, p_mid: float = 0.0,
-                 p_cur_after: float = 0.0) -> None:
+                 p_cur_after: float = 0.0, p_defer: float = 0.0) -> None:
         self.rng = rng
         self.w = dict(DEFAULT_WEIGHTS)
         if weights:
@@ -38,6 +38,8 @@ class KGen:
         self.p_cancel = p_cancel
         self.p_mid = p_mid
         self.p_cur_after = p_cur_after
+        self.p_defer = p_defer
+        self.deferred: list[list[Any]] = []      # [countdown, resume op] of lookups whose coroutine is awaited later
         self.queue: list[dict[str, Any]] = []
         self.p_pair = p_pair
         self.p_manual = p_manual
@@ -234,6 +236,13 @@ class KGen:
                 ty, name = rng.choice(gk)         # lookups piling up on a suspended factory
             op = {"op": kind, "t": t, "c": c, "ty": ty, "name": name,
                   "opt": rng.random() < 0.35, "via": self.via(t, c)}
+            if kind == "get" and rng.random() < self.p_defer and (ty, name) not in self.ctxs[c].get("gated_keys", ()):
+                # the coroutine of the lookup is created now (through the context object) and awaited only later -
+                # possibly after the context has been left: what counts is the state when it runs
+                self.n_gets += 1
+                op.update(via="method", defer=True, gid=self.n_gets)
+                self.deferred.append([rng.randint(0, 8), {"op": "resume", "t": t, "c": c, "gid": self.n_gets}])
+                return op
             if kind == "get" and (ty, name) in self.ctxs[c].get("gated_keys", ()):
                 # may be suspended (on the factory, or waiting for a generation in flight): a candidate for `cancelget`
                 self.n_gets += 1
@@ -435,12 +444,18 @@ class KGen:
             op = self.gen_op()
             if op is not None:
                 ops.append(op)
+                for d in self.deferred:
+                    d[0] -= 1
+                for d in [d for d in self.deferred if d[0] < 0 and self.rng.random() < 0.7]:
+                    self.deferred.remove(d)
+                    self.queue.append(d[1])
                 if op["op"] in ("getnw", "get", "inject", "addtd", "add") and self.rng.random() < self.p_cur_after:
                     # whatever the operation did (a factory that ran or failed, a generator's first half, …), the
                     # task's current context afterwards is what it was before
                     self.queue.append({"op": "current", "t": op.get("t", 0)})
         ops += self.queue
         ops += self.closing_ops()
+        ops += [d[1] for d in self.deferred]        # … the rest only after every block has been left
         # every async lookup gets its own label (suspended lookups are reported under it)
         for i, op in enumerate(ops):
             if op["op"] == "get":
@@ -448,7 +463,7 @@ class KGen:
         # a cancelled lookup is named by its label
         lid_of = {op["gid"]: op["lid"] for op in ops if op["op"] == "get" and "gid" in op}
         for op in ops:
-            if op["op"] == "cancelget":
+            if op["op"] in ("cancelget", "resume"):
                 op["lid"] = lid_of.get(op.pop("gid"), 999)
         return ops
 
@@ -471,6 +486,28 @@ class KGen:
         for c in sorted(self.ctxs):
             ops.append({"op": "state", "t": 0, "c": c})
         return ops
+
+
+def undefer(ops: list[dict[str, Any]]) -> list[dict[str, Any]]:
+    """Same length: a lookup whose coroutine is only created (`defer`) becomes a no-op answering ok, the `resume`
+    that awaits it becomes the lookup itself (made at that point); a `resume` without its lookup answers badOp."""
+    gets = {op["lid"]: op for op in ops if op["op"] == "get" and op.get("defer")}
+    seen: set[int] = set()
+    out = []
+    for op in ops:
+        if op["op"] == "get" and op.get("defer"):
+            seen.add(op["lid"])
+            out.append({"op": "noop", "want": ["ok"]})
+        elif op["op"] == "resume":
+            g = gets.get(op["lid"])
+            if g is None or op["lid"] not in seen:
+                out.append({"op": "noop", "want": ["badOp"]})
+            else:
+                seen.discard(op["lid"])
+                out.append({k: v for k, v in g.items() if k != "defer"})
+        else:
+            out.append(op)
+    return out
 
 
 def resolve_reraise(ops: list[dict[str, Any]]) -> list[dict[str, Any]]:
@@ -507,7 +544,7 @@ def valid_ops(ops: list[dict[str, Any]]) -> bool:
     for n, op in enumerate(ops):
         k = op["op"]
         t = op.get("t", 0)
-        if k not in ("finish", "cancelget") and t not in stacks:
+        if k not in ("finish", "cancelget", "resume") and t not in stacks:
             return False
         if k == "enter" and op.get("pre"):
             nxt = ops[n + 1] if n + 1 < len(ops) else {}
